@@ -93,6 +93,10 @@ func (i *Interpreter) Interpret(statements []ast.Stmt, isRepl bool) []interface{
 
 func (i *Interpreter) eval(expr ast.Expr, env *environment.Environment, isRepl bool) (interface{}, *ControlFlowSignal) {
 	// fmt.Printf("%T\n", expr)
+	// Once a runtime error has been reported nothing more of the program may run.
+	if utils.HadRuntimeError {
+		return nil, &ControlFlowSignal{Type: ControlFlowNone, LineNumber: 0}
+	}
 	switch e := expr.(type) {
 	case *ast.PropertyAssignment:
 		objectValue, signal := i.eval(e.Object, env, isRepl)
@@ -288,6 +292,10 @@ func (i *Interpreter) eval(expr ast.Expr, env *environment.Environment, isRepl b
 		}
 
 		// Step 3: Call the function and return its result
+		// (not if evaluating an argument failed: a built-in must not run after an error)
+		if utils.HadRuntimeError {
+			return nil, &ControlFlowSignal{Type: ControlFlowNone, LineNumber: 0}
+		}
 		result, err := function.Call(i, arguments)
 		if err != nil {
 			utils.RuntimeError(e.Paren, "Function call failed: "+err.Error())
